@@ -71,7 +71,8 @@ func propDefs() map[string]*PropDef {
 			// leaf. Unreachable for prefix-free codecs (fixed-width numerics, codec hypothesis of compound
 			// trees) but that needs path coherence (rung 2): generated, not claimed. For alpha trees it is
 			// reachable (keys with embedded 0x00): known finding F8.
-			map[string][]string{"Insert": {`^C/\(\*(unsigned|signed|float|compound)SortedTree\[K,V\]\)\.Insert/size_accounting@ret#8/calls\("Insert\$1"\)=0`}}),
+			map[string][]string{"Insert": {`^C/\(\*(unsigned|signed|float|compound)SortedTree\[K,V\]\)\.Insert/size_accounting@ret#8/calls\("Insert\$1"\)=0`,
+				`^C/\(\*collationSortedTree\[K,V\]\)\.Insert/size_accounting@ret#4/calls\("Insert\$1"\)=0`}}),
 		Floor: 60,
 		Assumptions: []string{
 			"per-path accounting: on every return path of Insert, size - old(size) equals the number of leaves created on that path (0 or 1); Delete decrements exactly when it returns true and leaves the heap untouched otherwise; Size returns the field and writes nothing",
@@ -98,7 +99,7 @@ func propDefs() map[string]*PropDef {
 	m["C15"] = &PropDef{
 		ID: "C15",
 		Funcs: treeFuncs([]string{"Search", "Size", "Delete", "Insert"},
-			map[string][]string{"Search": {`/pure`}, "Size": {`/pure`}, "Delete": {`/noop_frame`}, "Insert": {`/overwrite_only_value@ret#7`}}, nil),
+			map[string][]string{"Search": {`/pure`}, "Size": {`/pure`}, "Delete": {`/noop_frame`}, "Insert": {`/overwrite_only_value`}}, nil),
 		Floor: 100,
 		Assumptions: []string{
 			"frame obligations: Search and Size leave every heap array unchanged on every object that existed at entry; Delete returning false leaves the heap unchanged; the overwrite exit of Insert changes nothing but the value field of a leaf",
@@ -182,7 +183,7 @@ func nodeFuncs(include []string) []FuncCheck {
 	return out
 }
 
-var genKinds = []string{"alpha", "unsigned", "signed", "float", "compound"}
+var genKinds = []string{"alpha", "unsigned", "signed", "float", "compound", "collation"}
 
 // treeFuncs: the tree-level functions of the five generated kinds, with per-method filters.
 func treeFuncs(methods []string, include, exclude map[string][]string) []FuncCheck {
@@ -211,7 +212,7 @@ func helperFuncs(include []string) []FuncCheck {
 // obligations of Insert that need the path-coherence part of the tree invariant (rung 2):
 // generated and attempted on every run, but not part of any claim
 var insertRung2 = []string{
-	`call:\(\*node4\)\.addChild@newNode\.addChild\(ref,keyS\[depth\+prefixDiff\].*/requires#2\.1\.1`, // second branch byte differs from the first
+	`call:\(\*node4\)\.addChild@newNode\.addChild\(ref,(keyS|colKey)\[depth\+prefixDiff\].*/requires#2\.1\.1`, // second branch byte differs from the first
 	`index@newNode\.addChild\(ref,leafKey\[depth\+prefixDiff\]`,                                        // long path: leaf key is long enough
 	`^extent/.*getTransformKey`,                                                                             // long path: minimum leaf's key extent after relinking
 }
